@@ -64,7 +64,8 @@ func GetAggregatorContext(ctx sdk.Context, k Keeper) *aggregator.AggregatorConte
 
 func recacheAggregatorContext(ctx sdk.Context, agc *aggregator.AggregatorContext, k Keeper, c *cache.Cache) bool {
 	logger := k.Logger(ctx)
-	from := ctx.BlockHeight() - int64(common.MaxNonce) + 1
+	// common.MaxNonce still holds the compiled-in default in a fresh process: use the stored params
+	from := ctx.BlockHeight() - int64(k.GetParams(ctx).MaxNonce) + 1
 	to := ctx.BlockHeight()
 
 	h, ok := k.GetValidatorUpdateBlock(ctx)
